@@ -26,6 +26,10 @@ CHECKS = {
     'C06': ('model_checking', 'describe output of a catalogue node with symbolic datatype limits: structure/stability/JSON kinds, and for every described '
             'writable parameter the datatype rebuilt from the description accepts a symbolic payload iff the node accepts the change; emitted values '
             'are importable; flags, interface classes and features compared with an independent derivation; undescribed names refused', '5/C06'),
+    'C14': ('model_checking', 'the real StateMachine driven by state functions whose behaviour per call is a symbolic code, under operation sequences '
+            '{cycle,start,stop} chosen by symbolic selectors, incl. start/stop issued from inside a state function (second actor between two steps); '
+            'assertions on the full event log: bounded cycle, never raises, init flag, cleanup exactly once and run to completion, last request wins; '
+            'plus a Drivable on HasStates for the busy/final status', '5/C14'),
 }
 NOT_YET = 'check not built yet in this round (planned per DESIGN.md section 5); not claimed until its harness runs clean'
 NOT_APPLICABLE = {}
